@@ -43,6 +43,32 @@ pub enum Op {
 	FinishBlock,
 }
 
+/// probes: which large-scale features the values of a workload have
+pub fn count_scale(spec: &FileSpec, out: &mut crate::runner::Outcome) {
+	let mut classes = vec![];
+	for op in &spec.ops {
+		match op {
+			Op::Serialize { val, .. } => val::scale_classes(val, &mut classes),
+			Op::SerializeAll { items } => items.iter().for_each(|(v, _, _)| val::scale_classes(v, &mut classes)),
+			Op::PushCrate { vals } | Op::PushRef { vals, .. } => vals.iter().for_each(|v| val::scale_classes(v, &mut classes)),
+			Op::Blob { len, .. } => {
+				if *len >= 8190 {
+					classes.push("scale_field_of_8_kib_or_more");
+				}
+				if *len > 65536 {
+					classes.push("scale_field_above_64_kib");
+				}
+			}
+			Op::FinishBlock => {}
+		}
+	}
+	classes.sort_unstable();
+	classes.dedup();
+	for c in classes {
+		out.count(c, 1);
+	}
+}
+
 #[derive(Clone, Copy, Debug, PartialEq, Eq, Serialize, Deserialize)]
 pub enum End {
 	IntoInner,
@@ -725,6 +751,8 @@ pub struct SpecProfile {
 	/// values at least one byte wide (C17's count / size oracles need that)
 	pub min_width_one: bool,
 	pub push_ops: bool,
+	/// 0: never; 1: deliberately large-scale schemas / values of modest encoded size; 2: also the big ones
+	pub scale: u8,
 }
 
 pub fn min_width(env: &Env, ty: &Ty, depth: u32) -> usize {
@@ -785,20 +813,31 @@ pub fn gen_schema_for(rng: &mut Rng, p: &SpecProfile) -> Ty {
 	}
 }
 
+/// `gen_schema_for`, or (one time in thirty, where the profile allows) a deliberately large-scale schema
+pub fn gen_schema_maybe_scale(rng: &mut Rng, p: &SpecProfile) -> (Ty, Option<ast::Scale>) {
+	if p.scale > 0 && rng.chance(1, 30) {
+		let (ty, sc) = ast::gen_scale_schema(rng, p.scale == 1);
+		let env = Env::build(&ty);
+		if !(p.min_width_one && (min_width(&env, &ty, 0) == 0 || has_zero_width_elements(&env, &ty, 0))) {
+			return (ty, Some(sc));
+		}
+	}
+	(gen_schema_for(rng, p), None)
+}
+
 pub fn gen_filespec(rng: &mut Rng, p: &SpecProfile) -> FileSpec {
 	let codec = gen_codec_ext(rng, p.heavy_codecs, p.big_blobs);
 	// big-blob scenarios: schema = bytes, block sizes on internal buffer boundaries
 	if p.big_blobs && rng.chance(1, 6) {
 		return gen_blob_spec(rng, codec);
 	}
-	let schema = gen_schema_for(rng, p);
+	let (schema, scale) = gen_schema_maybe_scale(rng, p);
 	let env = Env::build(&schema);
 	let vcfg = ValCfg {
 		max_len: 1 + rng.usize(8),
 		max_depth: 4,
-		budget: 6 + rng.below(40) as i32, str_boost: 0
-	};
-	let n_ops = 1 + rng.usize(p.max_ops);
+		budget: 6 + rng.below(40) as i32, str_boost: 0, scale: None }.with_scale(scale);
+	let n_ops = if scale.is_some() { 1 + rng.usize(p.max_ops.min(4)) } else { 1 + rng.usize(p.max_ops) };
 	let mut ops = vec![];
 	let mut sizes: Vec<usize> = vec![];
 	for _ in 0..n_ops {
@@ -888,7 +927,7 @@ pub fn gen_filespec(rng: &mut Rng, p: &SpecProfile) -> FileSpec {
 	}
 }
 
-fn gen_blob_spec(rng: &mut Rng, codec: Codec) -> FileSpec {
+pub fn gen_blob_spec(rng: &mut Rng, codec: Codec) -> FileSpec {
 	let mut ops = vec![];
 	let n = 1 + rng.usize(3);
 	for _ in 0..n {
@@ -1016,6 +1055,7 @@ pub fn gen_c11_container(rng: &mut Rng) -> c11::Scn {
 		// damaged files: keep the work per input byte bounded (no zero-width array elements)
 		min_width_one: true,
 		push_ops: true,
+		scale: 1,
 	};
 	let spec = gen_filespec(rng, &profile);
 	let sink = SimSink::all();
